@@ -10,7 +10,7 @@ Model of one SMTP/LMTP connection of maddy's endpoint (core Lean only).  Mirrore
   `Data`, `LMTPData`, `statusWrapper.SetStatus`, `Reset`, `Logout`, `abort`, `cleanSession`, `releaseLimits`;
 * `internal/msgpipeline/msgpipeline.go`: `Start`/`start`, `AddRcpt`, `getDelivery`, `Body`, `BodyNonAtomic`,
   `Commit`, `Abort` (one global check, one global modifier — which may rewrite recipients, see `rewriteRcpt` —,
-  per-domain destination blocks);
+  per-domain destination blocks; one-to-many modifiers at the global / source / destination stage: `xAddRcpt`);
 * `internal/limits/limits.go`: `TakeMsg` / `ReleaseMsg` as counters per source key; the order of the scopes and
   the roll-back of `TakeMsg` (`takeMsg`, `releaseMsg`).
 
@@ -435,11 +435,12 @@ def cleanSession (st : World) : World :=
 def sessAbort (st : World) (pd : PDel) : World :=
   cleanSession (pAbort pd st)
 
-/-- `Session.Reset` -/
+/-- `Session.Reset`: aborts the open delivery; the failure kept for a deferred MAIL (`deliveryErr`, kept without an
+open delivery) belongs to the transaction that ends here (fix c94200c) -/
 def sessReset (st : World) : World :=
   match st.sess.delivery with
   | some pd => sessAbort st pd
-  | none => st
+  | none => { st with sess := { st.sess with deliveryErr := none } }
 
 /-- `startDelivery`: on success the session owns a fresh pipeline delivery -/
 def startDelivery (st : World) (m : MailF) : World × Option Nat :=
@@ -454,7 +455,8 @@ def startDelivery (st : World) (m : MailF) : World × Option Nat :=
 def sessMail (cfg : Cfg) (st : World) (m : MailF) : World × Option Nat :=
   if st.sess.delivery.isSome then (st, some 503)
   else if !cfg.deferred then startDelivery st m
-  else ({ st with sess := { st.sess with mail := m } }, none)
+  -- deferred: keep the argument; a failure kept for an earlier MAIL command is dropped (fix c94200c)
+  else ({ st with sess := { st.sess with mail := m, deliveryErr := none } }, none)
 
 /-- `Session.rcpt` + the bookkeeping of accepted recipients, on the open pipeline delivery `pd` -/
 def sessRcptOn (cfg : Cfg) (st : World) (pd : PDel) (r : RcptF) : World × Option Nat :=
@@ -738,5 +740,99 @@ def BSt.step (s : BSt) : BOp → BSt × Nat
 def BSt.steps (s : BSt) : List BOp → BSt
   | [] => s
   | o :: os => (s.step o).1.steps os
+
+/-! ## One accepted recipient that stands for several effective addresses (op lines `C03 x`)
+
+Mirrors the three rewriting stages of `msgpipelineDelivery.AddRcpt`: the global modifiers turn the RCPT TO argument
+into a list, the modifiers of the source block turn EACH of its members into a list (the results are concatenated,
+in order), and for each member of that list the destination block is looked up, its modifiers run, and every result
+is handed to every target of the block (`getDelivery` + `delivery.AddRcpt`, recorded under the ORIGINAL address).
+The first failure ends the command; what was added before stays in the deliveries.  A modifier stage is a table
+address ↦ addresses (an address without an entry stays as it is); an address is (id, domain index), the id is what
+the scripted target prints and what selects its injected `AddRcpt` failure. -/
+
+abbrev XA := Nat × Nat
+
+abbrev XTab := List (XA × List XA)
+
+def xLookup (t : XTab) (a : XA) : List XA :=
+  match t.find? (fun e => e.1 == a) with
+  | some e => e.2
+  | none => [a]
+
+/-- the first two loops of `AddRcpt`: global modifiers, then the source block's modifiers on every result -/
+def xStage2 (g s : XTab) (a : XA) : List XA := (xLookup g a).flatMap (xLookup s)
+
+/-- harness: ids 6 / 7 are refused by `AddRcpt` of target 0 / 1 -/
+def xMask (k : Nat) : Nat := if k = 6 then 1 else if k = 7 then 2 else 0
+
+def xEff (r : RcptF) (b : XA) : RcptF := { r with id := b.1, mask := xMask b.1 }
+
+/-- the innermost loops: every result of the destination block's modifiers to every target of the block -/
+def xAddEach (m : MailF) (r : RcptF) (tg : List Nat) : List XA → List DEntry → Log → List DEntry × Log × Option Nat
+  | [], ents, log => (ents, log, none)
+  | b :: bs, ents, log =>
+    match addTargets m (xEff r b) tg ents log with
+    | (ents', log', some c) => (ents', log', some c)
+    | (ents', log', none) => xAddEach m r tg bs ents' log'
+
+/-- the third loop of `AddRcpt`, over the addresses the first two stages produced -/
+def xAddEffs (cfg : Cfg) (m : MailF) (r : RcptF) (d : XTab) : List XA → List DEntry → Log → List DEntry × Log × Option Nat
+  | [], ents, log => (ents, log, none)
+  | a :: rest, ents, log =>
+    if a.2 ≥ 3 then (ents, log, some 557)
+    else if targetsOf cfg (cfg.routes a.2) = [] then (ents, log, some 556)
+    else
+      match xAddEach m r (targetsOf cfg (cfg.routes a.2)) (xLookup d a) ents log with
+      | (ents', log', some c) => (ents', log', some c)
+      | (ents', log', none) => xAddEffs cfg m r d rest ents' log'
+
+/-- `msgpipelineDelivery.AddRcpt` with one-to-many modifiers at the three stages -/
+def xAddRcpt (cfg : Cfg) (g s d : XTab) (pd : PDel) (r : RcptF) (a : XA) (log : Log) : PDel × Log × Option Nat :=
+  let res := xAddEffs cfg pd.mail r d (xStage2 g s a) pd.ents log
+  ({ pd with ents := res.1 }, res.2.1, res.2.2)
+
+/-- `Session.rcpt` on the open pipeline delivery (see `sessRcptOn`) -/
+def xSessRcptOn (cfg : Cfg) (g s d : XTab) (st : World) (pd : PDel) (r : RcptF) (a : XA) : World × Option Nat :=
+  let res := xAddRcpt cfg g s d pd r a st.log
+  let st2 := { st with log := res.2.1, sess := { st.sess with delivery := some res.1 } }
+  match res.2.2 with
+  | some c => (st2, some c)
+  | none => ({ st2 with sess := { st2.sess with keys := st2.sess.keys ++ [r.uid] } }, none)
+
+/-- `Session.Rcpt` (see `sessRcpt`) -/
+def xSessRcpt (cfg : Cfg) (g s d : XTab) (st : World) (r : RcptF) (a : XA) : World × Option Nat :=
+  match st.sess.delivery with
+  | some pd => xSessRcptOn cfg g s d st pd r a
+  | none =>
+    match st.sess.deliveryErr with
+    | some c => (st, some c)
+    | none =>
+      match startDelivery st st.sess.mail with
+      | (st1, some c) => ({ st1 with sess := { st1.sess with deliveryErr := some c } }, some c)
+      | (st1, none) => xSessRcptOn cfg g s d st1 ⟨st.sess.mail, []⟩ r a
+
+inductive XTok
+  | plain (t : Tok)
+  | rcpt (r : RcptF) (a : XA)
+
+/-- `Conn.handle`: every command but RCPT as in `step` -/
+def xStep (cfg : Cfg) (g s d : XTab) (st : St) : XTok → St × Out
+  | .plain t => step cfg st t
+  | .rcpt r a =>
+    if st.closed then (st, .codes [])
+    else if !st.fromReceived then one st 502
+    else if st.bdat.isSome then one st 502
+    else
+      match xSessRcpt cfg g s d st.w r a with
+      | (w1, some c) => one { st with w := w1 } c
+      | (w1, none) => one { st with w := w1, rcpts := st.rcpts ++ [r] } 250
+
+def xRun (cfg : Cfg) (g s d : XTab) : St → List XTok → St × List Out
+  | st, [] => (if st.closed then st else connClose st, [])
+  | st, t :: ts =>
+    let (st1, o) := xStep cfg g s d st t
+    let (st2, os) := xRun cfg g s d st1 ts
+    (st2, o :: os)
 
 end MaddyVerif.Session
